@@ -88,19 +88,31 @@ class Ctx:
         self.tier = tier
         self.max_iter = 1 if tier == "quick" else 2
         self.ex = Executor(self.program, max_paths=4096 if tier == "quick" else 200000)
-        self.sites: List[Site] = find_sites(self.program)
+        self.all_sites: List[Site] = find_sites(self.program)
         self._cache = {}
         self.total_paths = 0
 
+    @property
+    def sites(self) -> List[Site]:
+        """Every construction site; a site that could not be modelled fails the rules that quantify over all sites
+        (and only those: anchored rules consult their own module)."""
+        for s in self.all_sites:
+            if s.error:
+                raise AnalysisError(s.error)
+        return self.all_sites
+
     # ---- anchors -----------------------------------------------------
-    def site(self, relpath, suffix, kind=None, states=None) -> Site:
+    def site(self, relpath, suffix, kind=None, states=None, pick=None) -> Site:
         """The construction site anchored by *suffix* = '<factory>.<inner names...>'.
 
         An exact match of the inner names is not required (inner functions get renamed): the site is
         identified by the module, the outermost factory function, optionally the constructor kind
         ('mux' | 'create') and the number of state ids it creates in its Probe branch."""
         self.program.module(relpath)
-        in_mod = [s for s in self.sites if s.module.relpath == relpath]
+        in_mod = [s for s in self.all_sites if s.anchor_rel == relpath]
+        for s in in_mod:
+            if s.error:
+                raise AnalysisError(s.error)
         cands = [s for s in in_mod if s.short.endswith(suffix)]
         if len(cands) != 1:
             factory = suffix.split(".")[0]
@@ -108,10 +120,21 @@ class Ctx:
             if not cands:
                 # anchors given by an inner name only (e.g. route_to_dead_letter.on_subscribe)
                 cands = [s for s in in_mod if factory in s.short.split(".")]
+            if not cands:
+                # the factory delegates to module-level helpers (lag -> _lag_n): sites whose outermost function is
+                # referenced from the body of the factory
+                import ast as _ast
+                m = self.program.module(relpath)
+                b = m.bindings.get(factory)
+                if b is not None and b[0] == "def":
+                    used = {n.id for n in _ast.walk(b[1]) if isinstance(n, _ast.Name)}
+                    cands = [s for s in in_mod if s.short.split(".")[0] in used]
             if kind is not None:
                 cands = [s for s in cands if (s.ctor != "create") == (kind == "mux")]
             if states is not None and len(cands) > 1:
                 cands = [s for s in cands if len(self.probe_states(s)) == states]
+            if pick is not None and len(cands) > 1:
+                cands = [s for s in cands if pick(s)]
         if len(cands) != 1:
             raise AnalysisError("anchor %s::%s: %d construction sites found (expected 1)" % (relpath, suffix, len(cands)))
         return cands[0]
@@ -235,7 +258,7 @@ class Ctx:
 
     def paths(self, spec: HandlerSpec, kind, cfg: Dict[str, str], max_iter=None) -> List[Path]:
         mi = max_iter or self.max_iter
-        key = (id(spec.fn), tuple(sorted(spec.bound.items())), kind, tuple(sorted(cfg.items())), mi)
+        key = (id(spec.fn), tuple(sorted(spec.bound.items())), spec.ctx_key, kind, tuple(sorted(cfg.items())), mi)
         if key not in self._cache:
             ps = self.ex.run(spec, kind, cfg, max_iter=mi)
             self.total_paths += len(ps)
@@ -374,7 +397,7 @@ def run_check(prop_id: str, rules, tier: str, level: str, explanation: str, trus
             "exhaustive": error is None,
             "rules": [r.summary() for r in results],
             "files": ctx.program.digests() if ctx else {},
-            "sites": len(ctx.sites) if ctx else 0,
+            "sites": len(ctx.all_sites) if ctx else 0,
             "known_findings_reported": [f.key() for f, _ in known_hits],
             "analysis_error": error,
             "selftest": selftest,
